@@ -13,6 +13,7 @@ from common import MachineryError, cleanup, require_tlc_ok, run_tlc, workdir
 
 LAWS = {
     "Weights": ["EssRange", "RelVarNonNeg", "PermInv", "ShiftLaw", "UniformEss"],
+    "WeightsNear": ["TwoPassIsOnePass", "SpreadNonNeg", "ZeroIffUniform", "PermInvNear"],
     "Target": ["ZeroPriorMinusInf", "NanToMinusInf", "FiniteIffAllFinite", "TargetDef"],
     "Resample": ["ProbsSumToOne", "ProbsPositive", "Monotone", "SameBetaUniform", "DrawnRowsLive"],
     "InitialDraw": ["ExactlyN", "OnlyValid", "DrawOrder", "NoRowTwice"],
